@@ -44,8 +44,15 @@ theorem withProg_actives (s : State) (m : Nat) (p : Prog) : (s.withProg m p).act
   | none => rfl
   | some x => by_cases h : m = j <;> simp [h, ModRt.withProg]
 
+theorem withProg_inc (s : State) (m : Nat) (p : Prog) (i : Nat) :
+    ((s.withProg m p).mods[i]?).map (·.incarnation) = (s.mods[i]?).map (·.incarnation) := by
+  simp only [State.withProg, List.getElem?_modify]
+  cases s.mods[i]? with
+  | none => rfl
+  | some x => by_cases h : m = i <;> simp [h, ModRt.withProg]
+
 theorem withProg_env (s : State) (m : Nat) (p : Prog) (i : Nat) : (s.withProg m p).env i = s.env i := by
-  simp only [State.env, withProg_actives]
+  simp only [State.env, withProg_actives, withProg_inc]
   rfl
 
 theorem withProg_schedule (s : State) (m : Nat) (p : Prog) (ev : KEvent) (t : Nat) :
